@@ -173,3 +173,27 @@ window2!(c06_w2_sameend, |all, limit| TextSelectionOperator::SameEnd { all, nega
 window2!(c06_w2_samerange, |all, limit| TextSelectionOperator::SameRange { all, negate: false });
 window2!(c06_w2_neg_overlaps, |all, limit| TextSelectionOperator::Overlaps { all, negate: true });
 window2!(c06_w2_neg_embedded, |all, limit| TextSelectionOperator::Embedded { all, negate: true, limit });
+
+// TextResource::iter() - the double-ended iterator over ALL known selections (used by the API and by every operator
+// without a dedicated window): its window must contain the begin of every selection (forward walk) and the end of
+// every selection (backward walk), wherever in the text they lie
+#[kani::proof]
+#[kani::unwind(4)]
+#[kani::stub(TextResource::range, range_stub)]
+fn c06_w_iter_covers_all() {
+    unsafe { NWIN = 0; }
+    let textlen: usize = kani::any();
+    kani::assume(textlen <= isize::MAX as usize);
+    let t = ts_in(textlen, 0);
+    let res = bare(textlen);
+    let it = res.iter();
+    assert!(unsafe { NWIN } == 1, "iter() is one window over the position index");
+    let (lo, hi) = unsafe { WINDOWS[0] };
+    assert!(lo <= hi, "valid range");
+    assert!(lo <= t.begin && t.begin < hi, "forward: every selection begins inside the window");
+    assert!(lo <= t.end && t.end < hi, "backward: every selection ends inside the window");
+    kani::cover!(t.end == textlen && t.begin < t.end, "selection ending at the very end of the text");
+    kani::cover!(t.begin == textlen, "zero-width selection at the very end of the text");
+    core::mem::forget(it);
+    core::mem::forget(res);
+}
